@@ -20,7 +20,7 @@ EmptyLedger(scn) ==
     open |-> <<>>, calls |-> <<>>, sent |-> <<>>, tk |-> <<>>, eff |-> <<>>,
     kv |-> <<>>, ever |-> {}, inval |-> {}, namedxo |-> {}, replacedFor |-> {}, replacedSure |-> {},
     faulted |-> FALSE, hardfault |-> {}, pairs |-> {}, varies |-> {}, nreq |-> 0,
-    obsq |-> <<>>, canon |-> <<>>, canongrp |-> "", swrx |-> {}, served |-> <<>>, fuzzy |-> {}, vu |-> {}, conc |-> FALSE, hadconc |-> FALSE,
+    obsq |-> <<>>, canon |-> <<>>, canongrp |-> "", swrx |-> {}, served |-> <<>>, fuzzy |-> {}, vu |-> {}, conc |-> FALSE, hadconc |-> FALSE, gseq |-> <<>>,
     last |-> NoObs ]
 
 (***************************************************************************)
@@ -134,7 +134,7 @@ OnOp(L, e, line) ==
                    /\ L.tk[p[1]].rq.u = L.tk[N].rq.u
                    /\ L.tk[p[1]].x < L.tk[N].x
                    /\ VariantMatch(L.eff[p[1]].rep, L.tk[p[1]].rq, L.tk[N].rq) }
-  IN [ L EXCEPT !.t = e.t, !.kv = kv2, !.ever = L.ever \cup new,
+  IN [ L EXCEPT !.t = e.t, !.kv = kv2, !.ever = L.ever \cup new, !.gseq = Append(L.gseq, e.x),
          !.replacedFor = L.replacedFor \cup repl2,
          \* which stored response a new one replaces is only certain when a single older one matched the request
          !.replacedSure = IF Cardinality({p[1] : p \in repl2} \cap StoredToks(L)) = 1 /\ Cardinality({p[1] : p \in repl2}) = 1
@@ -148,7 +148,7 @@ OnCall(L, e, line) ==
               t0 |-> e.t0, t1 |-> e.t1, inm |-> e.inm, ims |-> e.ims, m |-> e.m, rng |-> e.rng,
               oic |-> e.oic, st |-> e.rep.st, ctxdone |-> e.ctxdone, hsame |-> e.hsame, url |-> e.url ]
       isResp == e.kind \in {"full", "304", "bodyerr"}
-  IN [ L EXCEPT !.t = e.t1,
+  IN [ L EXCEPT !.t = e.t1, !.gseq = Append(L.gseq, e.x),
          !.calls = Append(L.calls, c),
          !.sent = IF isResp THEN L.sent @@ (e.tag :> [kind |-> e.kind, tok |-> e.tok, x |-> e.x, rep |-> e.rep]) ELSE L.sent,
          !.tk = IF isResp /\ e.tok # ""
